@@ -250,6 +250,9 @@ type siteKey struct {
 	i int
 }
 
+// PureCalls: calls whose known mod set meets the read set count against call-free definitions.
+var PureCalls = os.Getenv("ZR_PURE_CALLS") != "0"
+
 func (w *World) obsRegionClean(u *Unit, o types.Object, def ast.Expr) bool {
 	return w.obsRegionCleanTo(u, o, def, nil)
 }
@@ -365,6 +368,19 @@ func (w *World) obsRegionCleanTo(u *Unit, o types.Object, def ast.Expr, only *fl
 	var muts []*flow.Site
 	for _, s := range u.Sites {
 		if s == D || s.Deferred {
+			continue
+		}
+		if pure && s.Kind == flow.SCall && s.Callee != nil && reads != nil && PureCalls && !w.observer(s.Callee, 0) {
+			// a call-free definition against a call: only a callee of the module whose transitive stores are known and
+			// include a field the definition reads counts (`t := r.Term; r.becomeCandidate(); use(t)`)
+			if wr, known := w.writtenFields(s.Callee, 0, map[*types.Func]bool{}); known {
+				for f := range wr {
+					if reads[f] {
+						muts = append(muts, s)
+						break
+					}
+				}
+			}
 			continue
 		}
 		if owned && s.Kind != flow.SStore {
